@@ -614,8 +614,15 @@ class Parser(object):
           A ParseResult.
         """
         # The END_OF_INPUT token is explicitly added to avoid explicit "cursor <
-        # len(tokens)" checks.
-        tokens = list(tokens) + [Symbol(END_OF_INPUT)]
+        # len(tokens)" checks.  It is placed immediately after the last real
+        # token, so that a syntax error at the end of the input can be reported
+        # like any other syntax error.
+        tokens = list(tokens)
+        end_location = None
+        if tokens and getattr(tokens[-1], "source_location", None):
+            end_position = tokens[-1].source_location.end
+            end_location = parser_types.SourceLocation(end_position, end_position)
+        tokens.append(parser_types.Token(END_OF_INPUT, "", end_location))
 
         # Each element of stack is a parse state and a (possibly partial) parse
         # tree.  The state at the top of the stack encodes which productions are
